@@ -13,6 +13,9 @@
 //   fw <i> <D[i][0]> ...       floyd_warshall row i      (printed after the inputs)
 //   jo <i> ...                 johnsons row i
 //   dj <i> ...                 dijkstra(s=i) vector
+//   dx <s> <id> <id> ...       (n <= 64) order in which nodes leave the heap in dijkstra(s), observed by
+//                              instantiating dijkstra<T> with a double wrapper that logs `d[u->id]=u->d`;
+//                              "dxbad <s>" if that run's distances differ from dijkstra<double>
 //   ld <i> ...                 readLinearD() row i
 //   lg <i> ...                 readLinearG() row i  (diagonal printed as 9: it is never written by
 //                              the library unless a self-loop exists, so it is not an observable)
@@ -31,6 +34,38 @@
 #include "libvpsc/pairing_heap.h"
 
 typedef std::pair<unsigned, unsigned> Edge;
+
+// ----------------------------------------------------------------------------- traced number type
+// `dijkstra<T>` writes `d[u->id] = u->d` at the moment u leaves the heap. Instantiating the same
+// template with a double wrapper whose assignment operator logs writes into the output array makes
+// the extraction order observable without touching the library.
+struct Traced {
+    double v;
+    Traced() : v(0) {}
+    Traced(double x) : v(x) {}
+    Traced(const Traced &o) : v(o.v) {}
+    Traced &operator=(const Traced &o);
+};
+static Traced *g_outBegin = nullptr, *g_outEnd = nullptr;
+static std::vector<unsigned> *g_order = nullptr;
+inline Traced &Traced::operator=(const Traced &o) {
+    v = o.v;
+    if (g_order && this >= g_outBegin && this < g_outEnd) g_order->push_back((unsigned) (this - g_outBegin));
+    return *this;
+}
+inline bool operator<(const Traced &a, const Traced &b) { return a.v < b.v; }
+inline bool operator>(const Traced &a, const Traced &b) { return a.v > b.v; }
+inline bool operator==(const Traced &a, const Traced &b) { return a.v == b.v; }
+inline bool operator!=(const Traced &a, const Traced &b) { return a.v != b.v; }
+inline Traced operator+(const Traced &a, const Traced &b) { return Traced(a.v + b.v); }
+namespace std {
+template <> class numeric_limits<Traced> {
+public:
+    static const bool is_specialized = true;
+    static Traced max() { return Traced(DBL_MAX); }
+    static Traced min() { return Traced(DBL_MIN); }
+};
+}
 
 struct Graph {
     unsigned n = 0;
@@ -223,6 +258,25 @@ static void runGraphCase(long k, const char *tag, const Graph &g) {
         for (unsigned j = 0; j < n; ++j) D[s][j] = -1;
         shortest_paths::dijkstra<double>(s, n, D[s], g.es, ew);
         printRow("dj", s, D[s], n);
+    }
+    // extraction order of every dijkstra run (traced instantiation of the same template)
+    if (n <= 64) {
+        std::valarray<Traced> tw(g.unit ? 0 : g.w.size());
+        if (!g.unit) for (size_t i = 0; i < g.w.size(); ++i) tw[i] = Traced(g.w[i]);
+        std::vector<Traced> out(n);
+        for (unsigned s = 0; s < n; ++s) {
+            std::vector<unsigned> order;
+            for (unsigned j = 0; j < n; ++j) out[j].v = -1;
+            g_outBegin = out.data(); g_outEnd = out.data() + n; g_order = &order;
+            shortest_paths::dijkstra<Traced>(s, n, out.data(), g.es, tw);
+            g_order = nullptr;
+            bool same = true;
+            for (unsigned j = 0; j < n; ++j) if (!(out[j].v == D[s][j])) same = false;
+            printf("dx %u", s);
+            for (size_t i = 0; i < order.size(); ++i) printf(" %u", order[i]);
+            printf("\n");
+            if (!same) printf("dxbad %u\n", s);
+        }
     }
     for (unsigned i = 0; i < n; ++i) delete[] D[i];
     delete[] D;
